@@ -310,8 +310,8 @@ theorem accepted_route_path_params_partial (ctrlRoute : String) (parent : Securi
     (hr : reduceRoute parent m = some rr)
     (hnd : (m.params.map (·.name)).Nodup) (hne : ∀ p ∈ m.params, p.name.isEmpty = false)
     (hF2 : ∀ a ∈ m.annots.filter (·.name = "Path"), (∀ al, aliasOf a = .ok al → al = "") →
-        a.value ∈ extractUrlParams ctrlRoute ++ extractUrlParams (((m.annots.filter (·.name = "Route")).head?.map (·.value)).getD "")) :
-    let urlParams := extractUrlParams ctrlRoute ++ extractUrlParams (((m.annots.filter (·.name = "Route")).head?.map (·.value)).getD "")
+        a.value ∈ extractUrlParams (ctrlRoute ++ ((m.annots.filter (·.name = "Route")).head?.map (·.value)).getD "")) :
+    let urlParams := extractUrlParams (ctrlRoute ++ ((m.annots.filter (·.name = "Route")).head?.map (·.value)).getD "")
     let pathParams := rr.params.filter (·.passedIn = "path")
     (pathParams.map (·.nameInSchema)).Nodup ∧
     (∀ n ∈ urlParams, n ≠ "" → n ∈ pathParams.map (·.nameInSchema)) ∧
